@@ -434,7 +434,11 @@ def run_shard(ctx):
                 # the real sheet is there but holds no row yet (a template): not a missing sheet
                 real = "settings" if lev(nm.lower(), "settings") <= lev(nm.lower(), "entities") else "entities"
                 sheets[real] = (["form_title"], []) if real == "settings" else (["list_name", "label"], [])
-        o = judge(ctx, sheets, f"sheet|{nm}|{len(sheets)}", "sheet-name")
+        # every container reports the sheet names it met: the advisory does not depend on how the workbook was delivered
+        fmt_ = ["dict", "csv", "xlsx", "md", "xls", "dict", "csv"][n % 7]
+        if fmt_ in ("md", "csv") and (nm != nm.strip() or "|" in nm or not nm.strip()):
+            fmt_ = "xlsx"
+        o = judge(ctx, sheets, f"sheet|{nm}|{len(sheets)}|{fmt_}", "sheet-name", fmt=fmt_)
         # advisory only: underscore-prefixing a near-miss must not change the XForm
         if o is not None and nm.lower() not in ("settings", "entities") and not nm.startswith("_"):
             s2 = {("_" + k if k == nm else k): v for k, v in sheets.items()}
